@@ -186,8 +186,18 @@ def apply_sentinel(sent):
         return
     msrc = src.replace(sent.old, sent.new)
     ns = dict(mod.__dict__)
+    # the mutant's text lives in a real file: loop cutting re-reads function sources through inspect/linecache and must see the MUTATED text
+    mdir = os.path.join(ROOT, 'evidence', 'mutants')
+    os.makedirs(mdir, exist_ok=True)
+    mpath = os.path.join(mdir, '%s.%s.py' % (sent.module, hashlib.sha256(sent.name.encode()).hexdigest()[:10]))
+    with open(mpath, 'w') as f:
+        f.write(msrc)
+    import linecache
+    linecache.checkcache(mpath)
+    ns.pop('__loader__', None)
+    ns.pop('__spec__', None)
     try:
-        exec(compile(msrc, path + '<mutant:%s>' % sent.name, 'exec'), ns)
+        exec(compile(msrc, mpath, 'exec'), ns)
     except Exception:
         yield False
         return
@@ -221,6 +231,18 @@ def apply_sentinel(sent):
                 mod.__dict__[k] = v
             else:
                 setattr(k[0], k[1], v)
+
+
+def _genuine_failure(name, c):
+    """a sentinel counts as killed only by a failed contract clause, or by an exception raised inside the (mutated) repository code --
+    never by an engine error of the checker itself"""
+    if name != 'no-unexpected-exception':
+        return True
+    for w in c.get('witnesses', []):
+        files = re.findall(r'File "([^"]+)"', str(w.get('detail', '')))
+        if files and ('/evidence/mutants/' in files[-1] or files[-1].startswith('/repo/')):
+            return True
+    return False
 
 
 def _rebind(obj, mod):
@@ -376,13 +398,17 @@ def main(argv=None):
             global _TASKS
             _TASKS = sub
             killed = False
+            undec = False
             for i_ in range(len(sub)):
                 r = _run_task(i_)[1]
-                if any(c['failed'] for cn, c in r['checks'].items() if cn not in sub[i_].expect_fail) or r['errors']:
+                if any(c['failed'] for cn, c in r['checks'].items() if cn not in sub[i_].expect_fail and _genuine_failure(cn, c)):
                     killed = True
                     break
-        sent_report.append(dict(name=sent.name, status='killed' if killed else 'SURVIVED'))
-        if not killed:
+                if r['errors'] or r.get('truncated') or any(c.get('unknown') or c['failed'] for cn, c in r['checks'].items() if cn not in sub[i_].expect_fail):
+                    undec = True       # the mutant is not ACCEPTED (a real run would exit 2: undecided), but no clause names it
+        status = 'killed' if killed else ('undecided (not accepted, exit 2)' if undec else 'SURVIVED')
+        sent_report.append(dict(name=sent.name, status=status))
+        if status == 'SURVIVED':
             vacuity.append('mutation sentinel survived: %s' % sent.name)
 
     wall = time.time() - t0
